@@ -98,7 +98,7 @@ func (pr protection) inScope(resource string) bool {
 	return in
 }
 
-var staticFiles = []string{"home.html", "pub/p.txt", "secret/s.txt", "secret/s.txt.gz", "secret/index.html", "secret/sub/deep.txt", "secret/page.md", "secret/t.html", "secret/excluded/e.txt", "secret/i.php", "secret/s.html", "secret/excluded2/e2.txt"}
+var staticFiles = []string{"home.html", "pub/p.txt", "secret/s.txt", "secret/s.txt.gz", "secret/index.html", "secret/sub/deep.txt", "secret/page.md", "secret/t.html", "secret/excluded/e.txt", "secret/i.php", "secret/s.html", "secret/excluded2/e2.txt", "idx/index.md", "idx/other.txt", "idh/index.html", "idh/other.txt"}
 
 var backendTok = regexp.MustCompile(`[PF]TOK\[(.*?)\]END`)
 
@@ -112,7 +112,7 @@ type c03case struct {
 
 func main() {
 	rep := kit.NewReport("C03", "exploration",
-		"6 protection lines (basicauth with dir / dir+slash / single file / block with exclude, with and without trailing slash; internal) x every subset of size <=2 (thorough 3) of an 18-line menu of path-rewriting and content-producing directives (rewrite abs/relative/regexp, tryfiles, ext, index, gzip, browse with and without archives, templates, markdown, proxy, fastcgi, redir) x ~250 request targets (spellings of protected names, rewrite triggers, archive queries) x methods x Accept-Encoding x credentials {none, wrong user, wrong password, valid}; unique tokens in every protected file and backend reply; valid-credential responses compared with the unprotected site; distinct_nontrivial = outcome classes")
+		"9 protection lines (basicauth with dir / dir+slash / single file / block with exclude, with and without trailing slash / two rules; internal for a directory and for single files that are their directory's index page) x every subset of size <=2 (thorough 3) of an 18-line menu of path-rewriting and content-producing directives (rewrite abs/relative/regexp, tryfiles, ext, index, gzip, browse with and without archives, templates, markdown, proxy, fastcgi, redir) x ~300 request targets (spellings of protected names, rewrite triggers, archive queries, absolute-form and opaque request targets) x methods x Accept-Encoding x credentials {none, wrong user, wrong password, valid}; unique tokens in every protected file and backend reply; valid-credential responses compared with the unprotected site; distinct_nontrivial = outcome classes")
 	kit.Init()
 	kit.Log.Off.Store(true)
 	base := kit.TempDir("c03")
@@ -158,6 +158,9 @@ func main() {
 		{"internal", "internal /secret", []string{"/secret"}, nil, true, nil},
 		// the excluded directory written with a trailing slash: its sibling /secret/excluded2 stays protected
 		{"basicauth-block-exclude-slash", "basicauth u p {\n\t\t/secret\n\t\texclude /secret/excluded/\n\t}", []string{"/secret"}, []string{"/secret/excluded/"}, false, nil},
+		// single files that are the index page of their directory (for markdown, and for the file server)
+		{"internal-index-md", "internal /idx/index.md", []string{"/idx/index.md"}, nil, true, nil},
+		{"internal-index-html", "internal /idh/index.html", []string{"/idh/index.html"}, nil, true, nil},
 		{"basicauth-two-rules", "basicauth u p {\n\t\t/secret\n\t\texclude /secret/excluded\n\t}\n\tbasicauth /secret/excluded u2 p2", []string{"/secret"}, []string{"/secret/excluded"}, false,
 			[]rule{{[]string{"/secret/excluded"}, nil, "u2", "p2"}}},
 	}
@@ -227,6 +230,17 @@ func main() {
 		// a way out again behind the protected name (handlers that read the path as sent may stop at the name)
 		add(n + "/../../pub/p.txt")
 		add(n + "/../../nothing")
+	}
+	// the directories whose index pages are protected on their own
+	for _, d := range []string{"/idx", "/idh"} {
+		for _, t := range []string{d, d + "/", "/" + d + "//", d + "/./", "/pub/.." + d + "/", d + "/index.md", d + "/index.html", d + "/other.txt", d + "/?archive=zip", strings.ToUpper(d) + "/"} {
+			add(t)
+		}
+	}
+	// request targets that are not paths: absolute-form with and without a path, and opaque ones (scheme:rest); handlers that
+	// read r.URL.Path see "" for the latter while the proxy builds the upstream path from the opaque part
+	for _, t := range []string{"http://a.test/secret/s.txt", "x:secret/s.txt", "x:secret/sub/deep.txt", "x:/secret/s.txt", "http:secret/s.txt", "x:idx/index.md"} {
+		add(t)
 	}
 	for _, t := range []string{"/", "/pub", "/pub/p.txt", "/pub2", "/r/s.txt", "/r/sub/deep.txt", "/r/../secret/s.txt", "/s", "/old", "/?archive=zip", "/?archive=tar.gz", "/pub/?archive=zip", "/home.html", "/nothing", "/secret?archive=zip", "/secret/?archive=tar.gz", "/secret/sub/?archive=zip", "/r/?archive=zip", "/r/", "/pub/../secret/", "/secret/sub/"} {
 		add(t)
@@ -434,7 +448,11 @@ func main() {
 								}
 								sig := "C03/disclosure/" + how + "/" + j.pr.name + "/" + mechanism(how, raw)
 								if archive {
-									sig = "C03/disclosure/" + how + "/" + mechanism(how, raw)
+									kind := "basicauth"
+									if j.pr.internal {
+										kind = "internal"
+									}
+									sig = "C03/disclosure/" + how + "/" + kind + "/" + mechanism(how, raw)
 								}
 								rep.Violation(sig, fmt.Sprintf("%s %s with credentials=%s returned content of %v", m, tgt, cr.name, disclosed), c03case{cf, raw, rec.Status, disclosed, ""})
 							}
